@@ -129,7 +129,8 @@ def save_bytes(psd, count=None):
 
 # ------------------------------------------------------------------------------------ the laws on one generated doc
 LAWS = (["crop"] * 3 + ["noop:hidden", "noop:alpha0", "noop:opacity0", "noop:outside", "wrap",
-                        "compression:RAW", "compression:ZIP", "compression:ZIP_WITH_PREDICTION", "reopen"])
+                        "compression:RAW", "compression:ZIP", "compression:ZIP_WITH_PREDICTION", "reopen",
+                        "reopen:api-default-groups", "wrap:api-default-group"])
 
 
 def run_law(spec, col, al, law, seed, counts=None, full=None):
@@ -182,6 +183,29 @@ def run_law(spec, col, al, law, seed, counts=None, full=None):
             d = cc.same_result(full, r2)
             if d:
                 out.append(("passthrough-wrap-changes-result", {"spec2": s2}, d, "same result as unwrapped"))
+    elif law in ("reopen:api-default-groups", "wrap:api-default-group"):
+        # pass-through groups exactly as Group.new() makes them: no blend-mode assignment (the setter would repair
+        # the divider block), no signature patch.  Three composites must agree: the ordinary build (or the
+        # unwrapped document), the API-default build in memory, and the API-default build saved and reopened.
+        if law.startswith("wrap"):
+            s2 = wrap_run(rng, spec)
+        else:
+            s2 = spec if has_api_passthrough_group(spec) else None
+        if s2 is not None:
+            cnt("law:" + law)
+            mem = cc.run_impl(cc.build_doc(s2, c16_workaround=False, api_default_groups=True), color=col, alpha=al)
+            p2 = PSDImage.open(io.BytesIO(save_bytes(cc.build_doc(s2, c16_workaround=False, api_default_groups=True), counts)))
+            reo = cc.run_impl(p2, color=col, alpha=al)
+            what = "wrapped in a group straight from Group.new()" if law.startswith("wrap") else "with groups straight from Group.new()"
+            extra = {"spec2": s2} if law.startswith("wrap") else {}
+            d = cc.same_result(full, mem)
+            if d:
+                out.append((("passthrough-wrap-changes-result" if law.startswith("wrap") else "api-default-group-not-pass-through")
+                            + ":api-default-group", dict(extra, stage="in memory"), d, "same result " + what))
+            d = cc.same_result(mem, reo)
+            if d:
+                out.append(("reopen-changes-result:api-default-group", dict(extra, stage="after save + reopen"), d,
+                            "same result after save + open of the document " + what))
     elif law.startswith("compression:"):
         comp = Compression[law[12:]]
         cnt("law:" + law)
@@ -490,18 +514,28 @@ def laws_fixture(ck, path, report):
         b_ = rng.choice(ends)
         run = [parent[k] for k in range(a_, b_)]
         if not any(bool(l.tagged_blocks.get_data(Tag.KNOCKOUT_SETTING, 0)) for l in run):
-            g = Group.new("wrap")
-            g._setting.signature = b"8BIM"
-            g.blend_mode = BlendMode.PASS_THROUGH
+            g = Group.new("wrap")  # pass-through by default; deliberately no blend-mode assignment, no signature patch
             parent.insert(a_, g)
             for l in run:
                 l.move_to_group(g)
             p2._compute_clipping_layers()
             ck.count("law:fixture-wrap")
             r2 = cc.run_impl(p2)
+            winp = dict(base_in, parent=parent.name if parent is not p2 else None, run=[a_, b_])
             d = cc.same_result(full, r2)
             if d:
-                report("passthrough-wrap-changes-result", dict(base_in, parent=parent.name if parent is not p2 else None, run=[a_, b_]), d, "same result as unwrapped")
+                report("passthrough-wrap-changes-result", winp, d, "same result as unwrapped")
+            try:
+                p4 = PSDImage.open(io.BytesIO(save_bytes(p2, ck.count)))
+                r4 = cc.run_impl(p4)
+            except Exception as e:
+                ck.count("fixture-wrap-reopen-not-evaluable:" + type(e).__name__)
+            else:
+                ck.count("law:fixture-wrap-reopen")
+                d = cc.same_result(r2, r4)
+                if d:
+                    report("reopen-changes-result:api-default-group", dict(winp, stage="after save + reopen"), d,
+                           "same result after save + open of the wrapped document")
     # save + reopen (unedited: bytes are rewritten by the record writer)
     p3 = PSDImage.open(io.BytesIO(save_bytes(PSDImage.open(path))))
     ck.count("law:fixture-reopen")
@@ -559,6 +593,17 @@ def run():
 
     # ---------------- generated documents
     shrunk_kinds = set()
+    # systematic: a pass-through group straight from Group.new() holding a non-normal member over a backdrop layer
+    for bm in ("multiply", "screen", "difference", "overlay", "linear_burn", "darken"):
+        for ab, at in ((255, 255), (255, 128), (128, 255), (64, 128)):
+            def px(col, m, al_):
+                return {"k": "px", "bbox": [0, 0, 1, 1], "color": [[col]], "alpha": [al_], "op": 255, "fill": None, "vis": True,
+                        "bm": m, "clip": False, "ko": False, "mask": None}
+            mini = {"mode": "L", "docalpha": False, "size": [1, 1], "layers": [
+                px(153, "normal", ab), {"k": "grp", "children": [px(102, bm, at)], "op": 255, "fill": None, "vis": True,
+                                       "bm": "pass_through", "clip": False, "ko": False, "mask": None}]}
+            for kind, extra, observed, expected in run_law(mini, 1.0, 0.0, "reopen:api-default-groups", 0, ck.count):
+                report(kind, dict({"spec": mini, "color": 1.0, "alpha": 0.0, "law": "reopen:api-default-groups", "seed": 0}, **extra), observed, expected)
     t0 = time.time()
     ndocs = 9000 if thorough else 1100
     model_cases = []
